@@ -133,10 +133,10 @@ def t_float(size, x, i, xk):
             ["gate", "n1", float(xk)], ["loop", xk, ["sequential_block", ["gate", "n1", flt(x)]]], ["subcircuit_block", xk, ["gate", "n1", float(xk)]]]
 
 
-@template(n=((1, 3), (0, 4)), i=((-1, 3), (-1, 4)), b=((0, 3), (-1, 5)))
+@template(n=((2, 3), (0, 4)), i=((-1, 3), (-1, 4)), b=((0, 3), (-1, 5)))
 def t_regsize_let(n, i, b):
     return ["circuit", ["let", "n", n], ["register", "r", "n"], ["map", "s", "r", 0, b, None], ["map", "w", "r"],
-            ["gate", "g1", AI("r", i)], ["gate", "g1", AI("s", i)], ["gate", "g1", AI("w", i)]]
+            ["gate", "g1", AI("r", i)], ["gate", "g1", AI("s", i)], ["gate", "g1", AI("w", 1)]]
 
 
 @template(size=((2, 3), (2, 4)), i=((0, 2), (-1, 4)), j=((0, 2), (-1, 4)), k=((0, 2), (0, 3)))
